@@ -26,12 +26,15 @@ def find_flag(ctx, b):
     if len(loops) != 1:
         raise AnalysisGap("main: expected one loop over Prover::prove_all, found %d" % len(loops))
     loop = loops[0]
+    from .. import sym
+    mut = set(sym.Eval(ctx.facts).mutated_locals(loop[3]))
+    lets = hq.let_by_id(b["body"])
+    inner = {p["id"] for n in walk(loop[3]) if n.get("k") == "LetStmt" for p in pat_bindings(n["pat"])}
     ids = set()
     for n in walk(loop[3]):
-        if n.get("k") == "Assign":
-            l = strip(n["l"])
-            if l.get("k") == "Path" and l.get("res", {}).get("r") == "local" and l.get("ty") == "bool":
-                ids.add(l["res"]["id"])
+        if n.get("k") == "Path" and n.get("res", {}).get("r") == "local" and n.get("ty") == "bool" and n["res"]["id"] in mut and n["res"]["id"] in lets \
+                and n["res"]["id"] not in inner:
+            ids.add(n["res"]["id"])
     if len(ids) != 1:
         raise AnalysisGap("main: expected exactly one bool flag assigned in the result loop, found %d" % len(ids))
     return loop, ids.pop()
@@ -83,9 +86,9 @@ def rule_flow_mono(ctx):
     let = hq.let_by_id(b["body"]).get(fid)
     init = strip(let["init"]) if let and "init" in let else {}
     ctx.add("FLOW-MONO", "init-true", init.get("k") == "Lit" and init.get("v") is True, site, "verdict flag `%s` is initialised with literal true" % (let or {}).get("pat", {}).get("name"))
-    asg = hq.assigns_to(b["body"], fid)
-    ctx.add("FLOW-MONO", "only-false", bool(asg) and all(strip(a["r"]).get("k") == "Lit" and strip(a["r"]).get("v") is False and a["k"] == "Assign" for a in asg), site,
-            "all %d assignments to the flag are the literal false" % len(asg))
+    loop_ids = {id(n) for n in walk(loop[0])}
+    asg = [a for a in hq.assigns_to(b["body"], fid) if id(a) not in loop_ids]
+    ctx.add("FLOW-MONO", "no-write-outside-loop", not asg, site, "the flag is not assigned outside the result loop (%d assignments)" % len(asg))
     # no mutable borrow / move of the flag elsewhere
     uses = hq.uses_of(b["body"], fid)
     pm = hq.parent_map(b["body"])
@@ -93,7 +96,17 @@ def rule_flow_mono(ctx):
     reads = []
     for u in uses:
         p = pm.get(id(u))
-        if p.get("k") == "Assign" and p.get("l") is u:
+        if p.get("k") in ("Assign", "AssignOp") and p.get("l") is u:
+            continue
+        if id(u) in loop_ids:
+            # uses inside the loop are part of the symbolic evaluation of the body; a `&mut flag` is only understood there when it is
+            # handed to a helper that the evaluator inlines (a crate-local function that is not in rules/known_functions.txt)
+            if p.get("k") == "Ref" and p.get("mut"):
+                from ..sym import known_functions
+                pp = pm.get(id(p)) or {}
+                tgt = callee(pp) if pp.get("k") in ("Call", "MethodCall") else None
+                if not (tgt in fx.bodies and tgt not in known_functions()):
+                    odd.append(hq.render(pp or p))
             continue
         if p.get("k") == "If" and p.get("cond") is u:
             reads.append(p)
@@ -108,57 +121,49 @@ def rule_flow_mono(ctx):
                 "true-branch prints the success message, false-branch the failure message", construct={"then": t_l, "else": e_l})
         # the read comes after the loop (same block, later statement)
         ctx.add("FLOW-MONO", "read-after-loop", r.get("line", 0) > loop[0].get("line", 0), site, "verdict is read after the result loop")
-    # the loop body: match on the loop variable
+    # the loop body, evaluated symbolically: the flag after one iteration as a decision tree over the prover result
+    from .. import sym, leaves
     _, iterable, pat, body = loop
-    var_ids = {p["id"] for p in pat_bindings(pat)}
-    top = [m for m in hq.nodes(body, "Match") if local_id_of(m["scrut"]) in var_ids and m.get("src") == "Normal"]
-    if len(top) != 1:
-        raise AnalysisGap("result loop: expected one match on the loop variable, found %d" % len(top))
-    top = top[0]
-    leaf_ok = None
-    for a in top["arms"]:
-        pk = hq.pat_key(a["pat"])
-        if pk == "Result::Err(_)":
-            ctx.add("FLOW-MONO", "arm:prover-error", must_assign(a["body"], fid, False), ctx.site(b, a["body"]),
-                    "Err(error) from the prover (spawn/write/wait failure) clears the flag on every path")
-        elif pk == "Result::Ok(_)":
-            inner = strip(a["body"])
-            if inner.get("k") == "Block" and not inner.get("stmts") and "expr" in inner:
-                inner = strip(inner["expr"])
-            if inner.get("k") != "Match" or not (callee_generic(strip(inner["scrut"])) or "").endswith("Report::status"):
-                raise AnalysisGap("Ok(report) arm is not a match on report.status()")
-            rep_ids = {p["id"] for p in pat_bindings(a["pat"])}
-            ctx.add("FLOW-MONO", "status-of-report", local_id_of(inner["scrut"]["recv"]) in rep_ids, site, "status() is taken from the report bound by this arm")
-            for a2 in inner["arms"]:
-                pk2 = hq.pat_key(a2["pat"])
-                if pk2 == "Result::Err(_)":
-                    ctx.add("FLOW-MONO", "arm:no-status", must_assign(a2["body"], fid, False), ctx.site(b, a2["body"]),
-                            "missing / unrecognised SZS status clears the flag on every path")
-                elif pk2 == "Result::Ok(_)":
-                    leaf_ok = (a2, {p["id"] for p in pat_bindings(a2["pat"])})
-                else:
-                    ctx.bad("FLOW-MONO", "arm:status:%s" % pk2, site, "unexpected arm in match on report.status()")
+    ev = sym.Eval(fx)
+    FLAG, RESULT = ("param", "FLAG"), ("param", "RESULT")
+    env = {fid: FLAG}
+    ev.names[fid] = "flag"
+    ev.bind_pat(pat, RESULT, env)
+    ev._prefix = [()]
+    ev.effect(body, env, 0)
+    try:
+        lv = leaves.leaves(env[fid])
+    except OverflowError as e:
+        raise AnalysisGap("result loop: %s" % e)
+    report = ("proj", RESULT, (("Result::Ok", "0"),))
+    status = ("call", "Report::status", (report,))
+    need = [("is", RESULT, "Result::Ok"), ("is", status, "Result::Ok"),
+            ("is", ("proj", status, (("Result::Ok", "0"),)), "Status::Success"),
+            ("is", ("proj", status, (("Result::Ok", "0"), ("Status::Success", "0"))), "Success::Theorem")]
+    kept, cleared, odd_leaves = [], [], []
+    for ts, v in lv:
+        if v == FLAG:
+            kept.append(ts)
+        elif v == ("lit", False):
+            cleared.append(ts)
         else:
-            ctx.bad("FLOW-MONO", "arm:%s" % pk, site, "unexpected arm in match on the prover result")
-    if leaf_ok is None:
-        raise AnalysisGap("no Ok(status) arm found")
-    a2, st_ids = leaf_ok
-    body2 = a2["body"]
-    iff = cond_assign(strip(body2) if body2.get("k") != "Block" else body2, fid)
-    if iff is None:
-        ctx.bad("FLOW-MONO", "arm:status-ok", ctx.site(b, body2), "the Ok(status) arm does not assign the flag under exactly one `if`")
-        return
-    c = strip(iff["cond"])
-    ok = False
-    detail = hq.render(c)
-    if c.get("k") == "Unary" and c.get("op") == "Not":
-        m = strip(c["e"])
-        if m.get("k") == "Match" and local_id_of(m["scrut"]) in st_ids:
-            rows = [(hq.pat_key(a["pat"]), strip(a["body"]).get("v")) for a in m["arms"]]
-            detail = rows
-            ok = rows == [("Status::Success(Success::Theorem)", True), ("_", False)]
-    ctx.add("FLOW-MONO", "arm:status-ok", ok and must_assign(iff["then"], fid, False) and "else" not in iff, ctx.site(b, iff),
-            "flag is cleared iff the status does not match exactly Status::Success(Success::Theorem): %s" % (detail,), construct=detail)
+            odd_leaves.append((ts, v))
+    ctx.add("FLOW-MONO", "only-false", not odd_leaves, site,
+            "on every path of the loop body the flag keeps its value or becomes false (%d paths keep, %d clear; other: %s)" % (len(kept), len(cleared), [sym.pretty(v)[:80] for _, v in odd_leaves]))
+    bad_kept = [ts for ts in kept if not all(n in ts for n in need)]
+    ctx.add("FLOW-MONO", "arm:status-ok", bool(kept) and not bad_kept, site,
+            "the flag survives an iteration only when the prover result is Ok(report), report.status() is Ok(status) and status is exactly "
+            "Status::Success(Success::Theorem); offending paths: %s" % [[str(t)[:90] for t in ts] for ts in bad_kept[:3]], construct=[str(t) for ts in kept for t in ts])
+
+    def has(ts, fact):
+        return fact in ts
+    # the three failure classes each clear the flag on every path (they are never a kept path, and at least one cleared path exists for each)
+    classes = {"arm:prover-error": ("is", RESULT, "Result::Err"), "arm:no-status": ("is", status, "Result::Err")}
+    for key, fact in classes.items():
+        ctx.add("FLOW-MONO", key, any(has(ts, fact) for ts in cleared) and not any(has(ts, fact) for ts in kept), site,
+                "a path with %s clears the flag and none keeps it" % (fact,))
+    ctx.add("FLOW-MONO", "arm:other-status", any(any(t[0] == "not" for t in ts) or any(t[0] == "is" and t[2] not in ("Result::Ok", "Result::Err", "Status::Success", "Success::Theorem") for t in ts) for ts in cleared), site,
+            "a status other than Theorem clears the flag")
 
 
 def rule_status_tables(ctx):
@@ -236,7 +241,10 @@ def rule_once(ctx):
     site = ctx.site(pa)
     # who calls prove
     callers = {}
+    from ..sym import known_functions
     for body in fx.body_list + fx.bin["bodies"]:
+        if body["def_path"] in fx.helpers:
+            continue   # a helper extracted later: its body is attached to each of its call sites (facts._graft_helpers) and is seen there
         for c in hq.calls(body["body"], "Prover::prove"):
             if (callee_generic(c) or "").endswith("Prover::prove"):
                 callers.setdefault(body["def_path"], []).append(c)
@@ -244,79 +252,61 @@ def rule_once(ctx):
             "Prover::prove is called only inside prove_all, at 2 sites: %s" % {k: len(v) for k, v in callers.items()})
     callers_all = [body["def_path"] for body in fx.body_list + fx.bin["bodies"] if hq.calls(body["body"], "Prover::prove_all")]
     ctx.add("ONCE", "prove_all-callers", callers_all == [fx.fn(MAIN)["def_path"]], site, "prove_all is called only from main: %s" % callers_all)
-    # sequential branch: problems.into_iter().map(closure{prove(problem)})
-    top_if = [n for n in hq.nodes(pa["body"], "If")]
-    if not top_if:
-        raise AnalysisGap("prove_all: no instances()==1 branch")
-    iff = top_if[0]
-    seq_calls = hq.calls(iff["then"], "Prover::prove")
-    par_calls = hq.calls(iff["else"], "Prover::prove")
-    ctx.add("ONCE", "one-per-branch", len(seq_calls) == 1 and len(par_calls) == 1, site, "one prove call in each branch")
-    params = {p.get("name") for p in pa["params"]}
-    if seq_calls:
-        pm = hq.parent_map(iff["then"])
-        clos = [a for a in hq.ancestors(pm, seq_calls[0]) if a.get("k") == "Closure"]
-        ok = False
-        why = "prove is not inside a map closure"
-        if clos:
-            mc = pm.get(id(clos[0]))
-            if mc is not None and mc.get("k") == "MethodCall" and mc["method"] == "map":
-                root, chain = hq.method_chain(mc)
-                ms = [c["method"] for c in chain]
-                cp = {p["id"] for q in clos[0]["params"] for p in pat_bindings(q)}
-                arg_ok = local_id_of(seq_calls[0]["args"][0]) in cp
-                ok = ms == ["into_iter", "map"] and local_of(root) in params and arg_ok
-                why = "sequential: %s.%s, closure applies prove to its own element: %s" % (local_of(root), ".".join(ms), arg_ok)
-        ctx.add("ONCE", "sequential", ok, site, why)
-    if par_calls:
-        loops = hq.for_loops(iff["else"])
-        ok = len(loops) == 1 and local_of(loops[0][1]) in params
-        ctx.add("ONCE", "pool-loop", ok, site, "pool branch iterates the problem iterator itself (no filter/skip): %s" % (hq.render(loops[0][1]) if loops else None))
-        if loops:
-            _, _, pat, body = loops[0]
-            lp = {p["id"] for p in pat_bindings(pat)}
-            execs = hq.calls(body, method="execute")
-            pm = hq.parent_map(body)
-            uncond = len(execs) == 1 and not any(a.get("k") in ("If", "Match") and a.get("src", "Normal") == "Normal" and a.get("k") != "Block"
-                                                 for a in hq.ancestors(pm, execs[0]) if a.get("k") in ("If",) or (a.get("k") == "Match" and a.get("src") == "Normal"))
-            ctx.add("ONCE", "pool-execute", uncond, site, "exactly one unconditional pool.execute per problem")
-            if execs:
-                cl = strip(execs[0]["args"][0])
-                if cl.get("k") != "Closure":
-                    raise AnalysisGap("pool.execute argument is not a closure")
-                cb = cl["body"]
-                stmts = hq.stmts_of(cb) if cb.get("k") == "Block" else []
-                prove_i = send_i = None
-                res_id = None
-                for i, s in enumerate(stmts):
-                    x = hq.stmt_expr(s)
-                    if x is None:
-                        continue
-                    if hq.calls(x, "Prover::prove") and prove_i is None:
-                        prove_i = i
-                        if s["k"] == "LetStmt":
-                            res_id = s["pat"].get("id")
-                            ctx.add("ONCE", "pool-prove-arg", local_id_of(hq.calls(x, "Prover::prove")[0]["args"][0]) in lp, site,
-                                    "worker proves the loop's own problem")
-                    sends = hq.calls(x, method="send")
-                    if sends and send_i is None:
-                        send_i = i
-                        ctx.add("ONCE", "pool-send-result", local_id_of(sends[0]["args"][0]) == res_id and res_id is not None, site,
-                                "the value sent is the result of prove (Ok and Err alike)")
-                pmc = hq.parent_map(cb)
-                branchy = []
-                for c in hq.calls(cb, method="send") + hq.calls(cb, "Prover::prove"):
-                    for a in hq.ancestors(pmc, c):
-                        if a.get("k") == "If" or (a.get("k") == "Match" and a.get("src") == "Normal") or a.get("k") in ("Loop", "Closure"):
-                            branchy.append(a.get("k"))
-                ctx.add("ONCE", "pool-send", prove_i is not None and send_i is not None and prove_i < send_i and not branchy, site,
-                        "worker closure is straight-line: prove (stmt %s) then send (stmt %s), no branch around either (%s)" % (prove_i, send_i, branchy))
-            # receiver drains the channel
-            rx = hq.calls(iff["else"], method="into_iter")
-            ctx.add("ONCE", "pool-drain", any("Receiver" in c["recv"].get("ty", "") for c in rx), site, "the returned iterator drains the receiver")
+    # prove_all evaluated symbolically (helpers extracted from it are inlined; `for` and `for_each` are the same loop): every call of
+    # prove / send / execute is recorded with its path condition and the loops it sits in
+    from .. import sym, leaves, ftpl
+    ev = sym.Eval(fx)
+    ev.effect_calls = {"Prover::prove", "Sender::send", "ThreadPool::execute", "SyncSender::send"}
+    value = ev.function(pa)
+    outs = [o for o in ev.out if o[2][0] == "emit" and o[2][1] in ev.effect_calls]
+
+    def tests_of(conds):
+        ts = []
+        for c, pol in conds:
+            r = leaves.cond_tests(c, pol)
+            if r is False:
+                return None
+            ts += r
+        return ts
+    SELF, PROBLEMS = ("param", pa["params"][0].get("name", "self")), ("param", pa["params"][1].get("name", "problems"))
+    inst = ("call", "Prover::instances", (SELF,))
+    one = ("eq", inst, 1)
+    proves = [o for o in outs if o[2][1] == "Prover::prove"]
+    seq = [o for o in proves if not o[1]]
+    par = [o for o in proves if o[1]]
+    seq_t = tests_of(seq[0][0]) if len(seq) == 1 else None
+    par_t = tests_of(par[0][0]) if len(par) == 1 else None
+    ctx.add("ONCE", "one-per-branch", len(seq) == 1 and len(par) == 1 and seq_t == [one] and par_t in ([], [("not", (one,))]), site,
+            "one prove call when instances() == 1 (outside any loop) and one otherwise (inside a loop), nothing else decides whether prove runs: %s / %s" % (seq_t, par_t))
+    lv = leaves.leaves(value)
+    seq_vals = [v for ts, v in lv if one in ts]
+    par_vals = [v for ts, v in lv if one not in ts]
+    if len(seq) == 1:
+        want = ("upd", ("acc", ("call", "Vec::new", ())), "push", (("call", "Prover::prove", (seq[0][2][2][0], ("at", PROBLEMS))),))
+        got = [ftpl.canon_iter(v) for v in seq_vals]
+        ctx.add("ONCE", "sequential", got == [want] and seq[0][2][2][0] == SELF, site,
+                "with one instance the result is prove applied to every element of `problems` in order (no filter / skip / take): %s" % [sym.pretty(g)[:160] for g in got])
+    if len(par) == 1:
+        o = par[0]
+        ctx.add("ONCE", "pool-loop", o[1] == (PROBLEMS,), site, "pool branch iterates the problem iterator itself, once (no filter/skip, no nested loop): %s" % (o[1],))
+        ctx.add("ONCE", "pool-prove-arg", o[2][2] == (SELF, ("each", PROBLEMS)), site, "worker proves the loop's own problem with (a clone of) this prover: %s" % (o[2][2],))
+        execs = [x for x in outs if x[2][1] == "ThreadPool::execute"]
+        ctx.add("ONCE", "pool-execute", len(execs) == 1 and execs[0][:2] == o[:2] and execs[0][2][2][1][:1] == ("closure",), site,
+                "exactly one unconditional pool.execute(closure) per problem (%d execute call(s))" % len(execs))
+        sends = [x for x in outs if x[2][1].endswith("::send")]
+        res = ("call", "Prover::prove", o[2][2])
+        ctx.add("ONCE", "pool-send-result", len(sends) == 1 and sends[0][2][2][1] == res, site, "the value sent is the result of prove (Ok and Err alike): %s" % [sym.pretty(x[2][2][1])[:120] for x in sends])
+        ctx.add("ONCE", "pool-send", len(sends) == 1 and sends[0][:2] == o[:2], site,
+                "the result is sent under exactly the conditions under which prove runs (no branch around either): %s vs %s" % ([tests_of(x[0]) for x in sends], par_t))
+        chan = leaves.norm(sends[0][2][2][0]) if len(sends) == 1 else None
+        ok = chan is not None and chan[0] == "proj" and chan[2] == (("tuple", "0"),) and chan[1][:2] == ("call", "mpsc::channel") and \
+            [leaves.norm(v) for v in par_vals] == [("proj", chan[1], (("tuple", "1"),))]
+        ctx.add("ONCE", "pool-drain", ok, site, "the returned iterator drains the receiver of the channel the workers send on: %s" % [sym.pretty(v)[:100] for v in par_vals])
     # Command::new only in Vampire::prove
     sites = []
     for body in fx.body_list + fx.bin["bodies"]:
+        if body["def_path"] in fx.helpers:
+            continue
         if hq.fn_refs(body["body"], "std::process::Command::new"):
             sites.append(body["def_path"])
     vp = fx.fn("prove", impl_self="verifying::prover::vampire::Vampire")
